@@ -1,5 +1,5 @@
 """Property -> rules mapping (what bin/check <id> runs) with the explanation / assumptions written into the evidence."""
-from .rules import attrs, cfg, conv, dbg, det, errsel, fmtdec, fmtoracle, fmtparse, hdr, hyg, idx, ops, panics, rawid, shape, split
+from .rules import attrs, cfg, conv, dbg, det, errsel, fmtdec, fmtoracle, fmtparse, gendet, hdr, hyg, idx, ops, optrules, panics, rawid, shape, split, state
 
 PROPS = {}
 
@@ -18,7 +18,7 @@ def prop(pid, quick, thorough=(), level="other", explanation="", assumptions=(),
 
 prop(
     "C01",
-    [hdr.rule_tpl_hdr, hdr.rule_tpl_lint, hdr.rule_tpl_selfassoc, rawid.rule_raw_id, shape.rule_tpl_prec, fmtdec.rule_traversal, fmtdec.rule_guard_use],
+    [hdr.rule_tpl_hdr, hdr.rule_tpl_lint, hdr.rule_tpl_selfassoc, rawid.rule_raw_id, shape.rule_tpl_prec, fmtdec.rule_traversal, fmtdec.rule_guard_use, fmtdec.rule_shared_decision, gendet.rule_generics_search, gendet.rule_type_param_used],
     explanation="Structural necessary conditions of 'every supported input expands to code that compiles warning-free': the 27 generated impl headers and every TypeGenerics splice "
     "(interpolations typed by rustc through the MIR binding join, identifier provenance by def-use), lint attributes on impls that name user variants, no Self::<Assoc> in enum-capable expanders, raw identifiers, "
     "spliced user expressions.",
@@ -30,7 +30,7 @@ prop(
 
 prop(
     "C02",
-    [fmtdec.rule_tpl_verb, fmtdec.rule_binder_align, fmtdec.rule_pointer_deref, fmtdec.rule_rename_all],
+    [fmtdec.rule_tpl_verb, fmtdec.rule_binder_align, fmtdec.rule_pointer_deref, fmtdec.rule_rename_all, state.rule_iteration_state, optrules.rule_option_flow],
     explanation="With an attribute the expansion *is* a write!/format_args! call, so 'prints what format! prints' reduces to: the attribute's tokens reach the macro verbatim and in order, fields are bound under "
     "the names the literal may use (`ident` / `_i`, same field), Pointer placeholders get the field itself, and the implicit body (unit name with rename_all, single-field delegation) is built as documented.",
     assumptions=["Rust's own semantics of format_args! (trusted)", NOT_DECIDED_VALUES],
@@ -69,7 +69,7 @@ prop(
 
 prop(
     "C06",
-    [dbg.rule_builder_shape, dbg.rule_debug_tuple_sibling, rawid.rule_raw_id],
+    [dbg.rule_builder_shape, dbg.rule_debug_tuple_sibling, rawid.rule_raw_id, fmtdec.rule_binder_align, state.rule_iteration_state],
     explanation="Without attributes generate_body must drive std's own builders like #[derive(Debug)] does (shape rules), names are rendered un-raw (RAW-ID over rustc-resolved Ident->text conversions), and the crate's copy of "
     "core::fmt::DebugTuple must have the same effect skeleton as the toolchain's core/src/fmt/builders.rs (sibling comparison, method by method).",
     assumptions=["std's #[derive(Debug)] expands to debug_struct/debug_tuple/write_str calls with un-raw names (rustc's builtin derive)", NOT_DECIDED_VALUES],
@@ -77,7 +77,7 @@ prop(
 
 prop(
     "C07",
-    [fmtdec.rule_shared_reject, fmtdec.rule_shared_decision, fmtdec.rule_lookup_agreement],
+    [fmtdec.rule_shared_reject, fmtdec.rule_shared_decision, fmtdec.rule_lookup_agreement, state.rule_iteration_state, optrules.rule_option_flow],
     explanation="Compile-time clauses: the `_variant` rejection precedes arm generation and tests modifiers OR non-Display; Debug rejects an enum-level format; `_variant` detection resolves names like bounded_types does; "
     "body and bounds share the wrap/default decision of shared_attr_info; the wrapping template binds `_variant` with the fields in scope; rename_all applies before the wrap split.",
     assumptions=["NOT decided: the full three-way decision (shared attribute x own attribute x field count) as a truth table, and every printed text", NOT_DECIDED_VALUES],
@@ -132,7 +132,7 @@ prop(
 
 prop(
     "C14",
-    [shape.rule_delegation, errsel.rule_view_defs, idx.rule_idx_space],
+    [shape.rule_delegation, errsel.rule_view_defs, idx.rule_idx_space, gendet.rule_generics_search],
     explanation="Delegating derives use element 0 of the enabled views (VIEW-DEF keeps positional names original), direct forms `&[mut] self.member`, forwarded forms through one cast with projected associated types, "
     "RefType tables pairwise consistent, AsRef kind decision and the autoref-specialisation levels of src/as.rs vs. the call site.",
     assumptions=["autoref-based specialisation: method probing prefers the receiver with fewer auto-refs (language semantics)", NOT_DECIDED_VALUES],
@@ -159,7 +159,7 @@ prop(
 
 prop(
     "C17",
-    [attrs.rule_legacy_attr_parser, attrs.rule_typed_attrs, attrs.rule_attr_positions, conv.rule_merge_symmetry],
+    [attrs.rule_legacy_attr_parser, attrs.rule_typed_attrs, attrs.rule_attr_positions, conv.rule_merge_symmetry, optrules.rule_option_flow],
     explanation="Attribute totality: the untyped parser's checks dominate every successful return, its name matches end in rejecting arms, slots are written once; typed attributes reject repetition unless merging is documented "
     "(merge overrides enumerated, symmetric), synonyms are accepted alike and not branched on, legacy syntax is detected on every path, positional conflicts raise their diagnostics.",
     assumptions=["NOT decided: token-equality of expansions for synonymous inputs (follows from the parsers producing the same value; not proved), diagnostics' wording"],
